@@ -299,7 +299,7 @@ def case_strategy(max_depth):
         def form(fd, want):
             """code for a live unquote (want 'p': promotable value) or splice (want 's')."""
             old = [i for i, (p, s, single) in enumerate(kinds) if not single and (p if want == "p" else s)]
-            k = pick((["old"] * 4 if old else []) + ["new"] * 4 + (["quote", "quasi", "listform"] if fd > 0 else []) + ["literal"])
+            k = pick((["old"] * 4 if old else []) + ["new"] * 4 + (["quote", "quasi", "listform", "tupleform", "dictform", "setform"] if fd > 0 else []) + ["literal"])
             if k == "old":
                 return ["sym", "v%d" % pick(old)]
             if k == "new":
@@ -310,6 +310,14 @@ def case_strategy(max_depth):
                 return ["expr", [["sym", "quote"], tmpl(fd, R.INF, False, 0) if want == "p" else seq(fd, R.INF, 0)]]
             if k == "quasi":
                 return Q(tmpl(fd, 0, False, 0) if want == "p" else seq(fd, 0, 0))
+            if k == "tupleform":
+                return ["tuple", [form(fd - 1, "p") for _ in range(small(0, 3))]]
+            if k == "dictform":  # a dict display: spliced, it gives its keys; unquoted, a Dict model of keys and values
+                keys = [["str", "k", None], ["int", 7], ["str", "", None]][: small(0, 3)]
+                return ["dict", [x for key in keys for x in (key, form(fd - 1, "p"))]]
+            if k == "setform":  # one distinct element, possibly written twice
+                e = pick([["int", 3], ["str", "e", None], ["float", "2.5"]])
+                return ["set", [e] * small(0, 2)]
             return ["list", [form(fd - 1, "p") for _ in range(small(0, 3))]]
 
         def seq(d, level, qn):
